@@ -227,6 +227,7 @@ Definition finalize_or_throw (N pos f : Z) (s : st) : res :=
   let e := ents s f in
   if negb (a_writing e) then Abort else                     (* writeableEntry() *)
   if negb (0 <? e_size e) then Thrown s else
+  if negb (e_anch e) then Thrown s else                     (* Must(le.anchored()) *)
   match fin_walk N pos f (e_size e) (fuel_of N) (a_start e) 0 s with
   | WNoFuel => NoFuel
   | WAbort => Abort
@@ -235,6 +236,8 @@ Definition finalize_or_throw (N pos f : Z) (s : st) : res :=
     if negb (i <? 0) then Thrown s1 else
     if negb (msz =? e_size e) then Thrown s1 else
     let e1 := ents s1 f in
+    (* Must(!anchor.basics.swap_file_sz || anchor.basics.swap_file_sz == le.size) *)
+    if negb ((a_swapsz e1 =? 0) || (a_swapsz e1 =? e_size e1)) then Thrown s1 else
     let e2 := if a_swapsz e1 =? 0 then e_set_swapsz e1 (e_size e1) else e1 in
     let e3 := e_set_state (e_set_valid e2 true) LeLoaded in
     if negb (a_writing e3) then Abort else                  (* closeForWriting() *)
@@ -268,6 +271,7 @@ Definition import_entry (h : hdr) (m : meta) (e : entry) : imp :=
     | None => ImpFail false
     | Some z =>
       if priv then ImpFail true else
+      if z =? rr_entry_size_max then ImpFail false else     (* importEntry(): all-ones size is corruption *)
       (* anchor.set(loadedE): the key comes from the swap metadata; then EBIT_CLR(ENTRY_VALIDATED) *)
       ImpOk (e_set_valid (e_set_swapsz (e_set_wtbf (e_set_key e mk0 mk1) false) z) false)
     end
@@ -313,7 +317,7 @@ Definition add_slot_to_entry (N pos f i : Z) (h : hdr) (m : meta) (s : st) : res
         | ImpOk e5 =>
           let s5 := set_ent s4 f e5 in
           if negb (h_esz h =? 0) then
-            if h_esz h =? rr_entry_size_max then Abort else  (* assert(totalSize != static_cast<uint64_t>(-1)) *)
+            if h_esz h =? rr_entry_size_max then free_bad_entry N pos f s5 else  (* "bad entry size" *)
             if a_swapsz e5 =? 0 then add_tail N pos f i h (set_ent s5 f (e_set_swapsz e5 (h_esz h)))
             else if negb (h_esz h =? a_swapsz e5) then free_bad_entry N pos f s5
             else add_tail N pos f i h s5
